@@ -1,0 +1,87 @@
+//go:build verif
+
+package router
+
+import (
+	"fmt"
+	"runtime"
+	"sync"
+)
+
+// Pool ownership tracking for the verification harness (build tag verif only).
+//
+// Every packet is either "free" (inside the pool channel) or "owned" (handed out by Get and not
+// yet returned). Put of a packet that is not owned and Get of a packet that is not free are
+// recorded as violations together with the call stack.
+
+type verifPoolState struct {
+	mu         sync.Mutex
+	owned      map[*Packet]bool
+	violations []string
+	gets, puts uint64
+	enabled    bool
+}
+
+var verifPool verifPoolState
+
+// VerifPoolReset clears the tracking table and enables tracking.
+func VerifPoolReset() {
+	verifPool.mu.Lock()
+	defer verifPool.mu.Unlock()
+	verifPool.owned = map[*Packet]bool{}
+	verifPool.violations = nil
+	verifPool.gets, verifPool.puts = 0, 0
+	verifPool.enabled = true
+}
+
+// VerifPoolReport returns the recorded violations and the Get/Put counters and the number of
+// packets currently owned (handed out).
+func VerifPoolReport() (violations []string, gets, puts uint64, outstanding int) {
+	verifPool.mu.Lock()
+	defer verifPool.mu.Unlock()
+	for _, o := range verifPool.owned {
+		if o {
+			outstanding++
+		}
+	}
+	return append([]string{}, verifPool.violations...), verifPool.gets, verifPool.puts, outstanding
+}
+
+func stack() string {
+	buf := make([]byte, 2048)
+	return string(buf[:runtime.Stack(buf, false)])
+}
+
+func poolTrackGet(p *Packet) {
+	verifPool.mu.Lock()
+	defer verifPool.mu.Unlock()
+	if !verifPool.enabled {
+		return
+	}
+	verifPool.gets++
+	if verifPool.owned[p] {
+		verifPool.violations = append(verifPool.violations,
+			fmt.Sprintf("Get returned a packet that is still owned: %p\n%s", p, stack()))
+	}
+	verifPool.owned[p] = true
+}
+
+func poolTrackPut(p *Packet) {
+	verifPool.mu.Lock()
+	defer verifPool.mu.Unlock()
+	if !verifPool.enabled {
+		return
+	}
+	verifPool.puts++
+	owned, known := verifPool.owned[p]
+	if known && !owned {
+		verifPool.violations = append(verifPool.violations,
+			fmt.Sprintf("Put of a packet that is not owned (double return): %p\n%s", p, stack()))
+	}
+	verifPool.owned[p] = false
+}
+
+// VerifPoolLen returns the number of packets currently in the pool and its capacity.
+func (d *VerifDataPlane) VerifPoolLen() (int, int) {
+	return len(d.packetPool.pool), cap(d.packetPool.pool)
+}
